@@ -155,7 +155,7 @@ def _settle(jr, body, res, obs, c, n_samples, sample_keys, counters):
         jr.divergences.append({"kind": "notes-differ", "values": res.values, "keys": diff[:5],
                                "symbolic": {k: sym_notes.get(k) for k in diff[:3]},
                                "concrete": {k: con_notes.get(k) for k in diff[:3]}})
-    if [n for n, _ in obs] != [n for n, _, _ in cobs]:
+    if res.kind == "ok" and [n for n, _ in obs] != [n for n, _, _ in cobs]:
         jr.divergences.append({"kind": "obligation-lists-differ", "values": res.values,
                                "symbolic": [n for n, _ in obs][:10], "concrete": [n for n, _, _ in cobs][:10]})
 
